@@ -17,6 +17,7 @@ package cmap
 //
 //@ func (shard).Set
 //@   requires s != nil && s.m != nil
+//@   opt atomic=lock
 //@   requires li_open: forall k K :: in(k, s.m) && s.m[k].Wait != nil ==> !isclosed(s.m[k].Wait) && allocated(s.m[k].Wait)
 //@   requires li_distinct: forall k1 K, k2 K :: in(k1, s.m) && in(k2, s.m) && s.m[k1].Wait != nil && k1 != k2 ==> s.m[k1].Wait != s.m[k2].Wait
 //@   ensures inserted [C15]: result == (!(old(in(key, s.m)) && old(s.m[key].Wait) == nil) || overwrite)
@@ -31,6 +32,7 @@ package cmap
 //
 //@ func (shard).LazySet
 //@   requires s != nil && s.m != nil
+//@   opt atomic=lock
 //@   requires li_open: forall k K :: in(k, s.m) && s.m[k].Wait != nil ==> !isclosed(s.m[k].Wait) && allocated(s.m[k].Wait)
 //@   requires li_distinct: forall k1 K, k2 K :: in(k1, s.m) && in(k2, s.m) && s.m[k1].Wait != nil && k1 != k2 ==> s.m[k1].Wait != s.m[k2].Wait
 //@   opt callbacks=pure
@@ -46,6 +48,7 @@ package cmap
 //
 //@ func (shard).Get
 //@   requires s != nil && s.m != nil
+//@   opt atomic=lock
 //@   requires li_open: forall k K :: in(k, s.m) && s.m[k].Wait != nil ==> !isclosed(s.m[k].Wait) && allocated(s.m[k].Wait)
 //@   requires li_distinct: forall k1 K, k2 K :: in(k1, s.m) && in(k2, s.m) && s.m[k1].Wait != nil && k1 != k2 ==> s.m[k1].Wait != s.m[k2].Wait
 //@   ensures found [C15]: old(in(key, s.m)) ==> val == old(s.m[key].Val) && wait == old(s.m[key].Wait) && !first && s.m[key] == old(s.m[key])
